@@ -114,6 +114,7 @@ def restart_on(img, tables, mem_kb=400, probe=True, want_trace=False, timeout=30
             out["detail"] = db.dead
         return out
     finally:
+        db.collect_contract()       # breaches of the pool users' contract during the restart itself (redo / undo / index rebuild), hook H5
         if db.proc:
             db.proc.kill()
         if not want_trace:
